@@ -123,7 +123,20 @@ class Mux:
         self.kind = kind
         self.net = SimNet(loop, auto=False)
         key = keypool.key(0)
-        if kind in ("sim", "stats"):
+        if kind == "disp":
+            # the endpoint object ipv8_service builds: a DispatcherEndpoint over an IPv4 and an IPv6 interface
+            from ipv8.messaging.interfaces.dispatcher.endpoint import DispatcherEndpoint
+            raw4 = SimEndpoint(self.net, ("1.0.0.1", 8000))
+            raw6 = SimEndpoint(self.net, ("2001:db8::1", 8000))
+            raw4.open_now()
+            raw6.open_now()
+            disp = DispatcherEndpoint([])
+            disp.interfaces = {"UDPIPv4": raw4, "UDPIPv6": raw6}
+            disp.interface_order = ["UDPIPv4", "UDPIPv6"]
+            disp._preferred_interface = raw4  # noqa: SLF001
+            self.endpoint = disp
+            self.entry = lambda src, data: (raw6 if ":" in src[0] else raw4).notify_listeners((self._addr(src), data))
+        elif kind in ("sim", "stats"):
             self.endpoint = SimEndpoint(self.net, ("1.0.0.1", 8000))
             self.endpoint.open_now()
             raw = self.endpoint
@@ -218,7 +231,7 @@ def _node_shard(ctx: Ctx, shard: int, nshards: int, thorough: bool) -> None:
         raise HarnessError("capture corpus too small")
 
     async def main(loop):
-        muxes = [Mux(loop, "sim"), Mux(loop, "udp4"), Mux(loop, "udp6"), Mux(loop, "stats")]
+        muxes = [Mux(loop, "sim"), Mux(loop, "udp4"), Mux(loop, "udp6"), Mux(loop, "stats"), Mux(loop, "disp")]
         try:
             prefixes = sorted(muxes[0].prefixes)
             k = 0
@@ -228,9 +241,9 @@ def _node_shard(ctx: Ctx, shard: int, nshards: int, thorough: bool) -> None:
                 k += 1
                 if k % nshards != shard:
                     return
-                m = muxes[k // nshards % 4]
-                srcs = SOURCES6 if m.kind == "udp6" else SOURCES
-                src = srcs[(k // nshards // 4) % len(srcs)]
+                m = muxes[k // nshards % len(muxes)]
+                srcs = SOURCES6 if m.kind == "udp6" else SOURCES + SOURCES6[:1] if m.kind == "disp" else SOURCES
+                src = srcs[(k // nshards // len(muxes)) % len(srcs)]
                 case = {"node": m.kind, "src": list(src), "data": data}
                 try:
                     nt = m.judge(src, data, case)
@@ -281,7 +294,8 @@ def _hyp_node_shard(ctx: Ctx, shard: int, nshards: int, n: int) -> None:
     corpus = collect_corpus()
 
     async def main(loop):
-        muxes = {"sim": Mux(loop, "sim"), "udp4": Mux(loop, "udp4"), "udp6": Mux(loop, "udp6"), "stats": Mux(loop, "stats")}
+        muxes = {"sim": Mux(loop, "sim"), "udp4": Mux(loop, "udp4"), "udp6": Mux(loop, "udp6"), "stats": Mux(loop, "stats"),
+                 "disp": Mux(loop, "disp")}
         prefixes = sorted(muxes["sim"].prefixes)
         try:
             base = st.sampled_from(corpus)
@@ -314,8 +328,8 @@ def _hyp_node_shard(ctx: Ctx, shard: int, nshards: int, n: int) -> None:
             src4 = st.sampled_from(SOURCES) | st.tuples(st.ip_addresses(v=4).map(str), st.integers(0, 65535))
             src6 = st.sampled_from(SOURCES6) | st.tuples(st.ip_addresses(v=6).map(str), st.integers(0, 65535),
                                                           st.just(0), st.just(0))
-            case_st = st.one_of(st.tuples(st.sampled_from(["sim", "udp4", "stats"]), src4, data),
-                                st.tuples(st.just("udp6"), src6, data))
+            case_st = st.one_of(st.tuples(st.sampled_from(["sim", "udp4", "stats", "disp"]), src4, data),
+                                st.tuples(st.sampled_from(["udp6", "disp"]), src6, data))
 
             def body(c):
                 kind, src, d = c
